@@ -3,6 +3,7 @@ import Operon.Lemmas.C15
 import Operon.Lemmas.C14Tr
 import Operon.Lemmas.C14Held
 import Operon.Lemmas.C14Sorted
+import Operon.Lemmas.C14Waiters
 import Operon.Model.CoordProbe
 import Operon.Gen.CoordExecProbe
 import Operon.Gen.CoordWatchdogProbe
@@ -113,6 +114,38 @@ theorem c14_unobtained_untouched_at_every_point_of_a_history (h0 : HSt) (ops : L
     (hnever : ∀ res, Ev.acq r (some res) ∈ (exec (xrun h0 ops).sys op prio req adv).log → res = .blocked) :
     (exec (xrun h0 ops).sys op prio req adv).sys.locks r = some l :=
   c14_unobtained_untouched _ op prio req adv r l hl hforeign (allSorted_xrun ops hs0 r l hl) hnotwaiting hact hnever
+
+/-- **A call with an id that is not active, at any point of any history: no side hypotheses left.**  Start from a
+    system in which the tracking invariant holds, recorded edges and waiting lists mention listed operations only and
+    waiting lists are sorted (e.g. freshly registered resources, nothing active — all four are vacuous there); run any
+    history of controller calls (start of ids that are not active / acquire / release / complete / abort / kill)
+    mixed with life-cycle calls; then call `execute_operation` with an id `op` that is not active, with callbacks that
+    touch nobody else.  For every registered resource `r`: (a) if the call never gets a result other than BLOCKED on
+    `r`, then `r` is afterwards exactly the lock it was; (b) if somebody owns `r` and `r` does not allow preemption,
+    then every attempt on it IS answered BLOCKED, `r` is exactly the lock it was and its owner still owns it.  The
+    hypotheses `hforeign`, `hsorted`, `hnotwaiting` of `c14_unobtained_untouched` / `c14_held_resource_survives_other_calls`
+    are consequences of the invariants (`Kinv.unlisted`, `allSorted_xrun`, `invariants_xrun` + `not_waiting_of_unlisted`). -/
+theorem c14_fresh_call_at_any_point_of_a_history (h0 : HSt) (ops : List XOp)
+    (hk : ∀ o, Kinv h0.sys o) (hlive : EdgesLive h0.sys) (hwl : WaitersListed h0.sys) (hs0 : AllSorted h0.sys)
+    (hf : XFreshStarts h0 ops)
+    (op : Nat) (prio : Int) (req : List Nat) (adv : Adv) (hfresh : (xrun h0 ops).sys.ctx? op = none)
+    (hact : adv.SelfOnly op) (r : Nat) (l : Lock) (hl : (xrun h0 ops).sys.locks r = some l) :
+    let s := (xrun h0 ops).sys
+    ((∀ res, Ev.acq r (some res) ∈ (exec s op prio req adv).log → res = .blocked) →
+      (exec s op prio req adv).sys.locks r = some l) ∧
+    (∀ o, l.owner = some o → l.preempt = false →
+      (∀ res, Ev.acq r (some res) ∈ (exec s op prio req adv).log → res = .blocked) ∧
+      (exec s op prio req adv).sys.locks r = some l ∧ Owns (exec s op prio req adv).sys o r) := by
+  obtain ⟨hk', _, hw'⟩ := invariants_xrun ops hk hlive hwl hf
+  have hsorted := allSorted_xrun ops hs0 r l hl
+  have hnw := not_waiting_of_unlisted hw' hfresh r l hl
+  have hown := (hk' op).unlisted (ctx?_none hfresh)
+  have hforeign : l.owner ≠ some op := fun h => hown r ⟨l, hl, h⟩
+  refine ⟨fun hnever => c14_unobtained_untouched _ op prio req adv r l hl hforeign hsorted hnw hact hnever, ?_⟩
+  intro o ho hp
+  have hne : o ≠ op := fun e => hforeign (e ▸ ho)
+  obtain ⟨h1, h2⟩ := held_exec _ op prio req adv r o l hl ho hne hp hsorted hnw hact
+  exact ⟨h1, h2, ⟨l, h2, ho⟩⟩
 
 /-- an unregistered id stays unregistered (nothing is created on the way) -/
 theorem c14_unregistered_stays_unregistered (s : Sys) (c : Ctx) (r : Nat) (h : s.locks r = none) :
@@ -728,6 +761,35 @@ example : (∀ o, Kinv s0 o) ∧
   refine ⟨fun o => ⟨fun _ _ _ x hx => absurd hx (h0 o x), fun _ x => h0 o x⟩, ?_⟩
   simp only [FreshCalls]
   decide
+
+/-- the hypotheses of `c14_fresh_call_at_any_point_of_a_history` are satisfiable: `s0` (two registered resources,
+    nothing active) meets all four invariants; after `start 7 / acquire 7 r1` the id 1 is not active and r1 is owned by
+    op 7 and does not allow preemption -/
+example : (∀ o, Kinv s0 o) ∧ EdgesLive s0 ∧ WaitersListed s0 ∧ AllSorted s0 ∧
+    XFreshStarts ⟨s0, []⟩ [.ctl (.start 7 1), .ctl (.acq 7 1)] ∧
+    (xrun ⟨s0, []⟩ [.ctl (.start 7 1), .ctl (.acq 7 1)]).sys.ctx? 1 = none ∧
+    ((xrun ⟨s0, []⟩ [.ctl (.start 7 1), .ctl (.acq 7 1)]).sys.locks 1).map (fun l => (l.owner, l.preempt)) =
+      some (some 7, false) := by
+  have h0 : ∀ o r, ¬ Owns s0 o r := by
+    rintro o r ⟨l, hl, ho⟩
+    simp only [s0, Sys.register] at hl
+    split at hl
+    · cases hl; cases ho
+    · split at hl
+      · cases hl; cases ho
+      · cases hl
+  have hw : WaitersListed s0 := by
+    intro r l hl e he
+    simp only [s0, Sys.register] at hl
+    split at hl
+    · cases hl; cases he
+    · split at hl
+      · cases hl; cases he
+      · cases hl
+  refine ⟨fun o => ⟨fun _ _ _ x hx => absurd hx (h0 o x), fun _ x => h0 o x⟩, ?_, hw,
+    allSorted_register (allSorted_register allSorted_empty 1 false) 2 true, ?_, by decide, by decide⟩
+  · rintro w b r ⟨e, he, _⟩; cases he
+  · simp only [XFreshStarts]; decide
 
 /-- the cell layer: success with and without a tag, failure attributed to coordination when validation raises,
     failure without a blocker when the post-processing raises after a commit -/
